@@ -96,7 +96,8 @@ def execute(p, cfg, algo, group, kind, batch, outs, training, ou, expl, masks, G
     any_eda = eda is not None
     if any_mask or any_eda:
         infos = {}
-        for i, a in enumerate(ids):
+        # the infos dict is a mapping: its key order must not matter. Training-mode calls list the agents in reverse order.
+        for i, a in (list(reversed(list(enumerate(ids)))) if training else list(enumerate(ids))):
             d = {}
             if masks[i] is not None:
                 d["action_mask"] = masks[i][0].copy() if batch == "u" else masks[i].copy()
